@@ -115,6 +115,72 @@ Fixpoint cpy (n : node) (l r : val) {struct n} : val :=
     else inner l r
   end.
 
+(* ---------- where the memory of the result comes from ----------
+   Value trees carry no allocation identity, so the sharing clause of C06 is modelled beside
+   [cpy]: for every allocation that a statement of cpy puts into the result - a pointer target,
+   a slice backing array, a map, a byte array - which statement form produced it:
+     OFresh  `new(T)`, `&T{}`, `make(..)`, a fresh `var b T` whose address is stored
+     OBuf    a slice of the byte buffer handed out by Bufferize / BufferizeString
+     ODst    the destination's own allocation, reused (non-nil map written into, non-nil
+             slice appended to, non-nil pointer written through)
+     OSrc    a reference of the source stored as it is (`l = r` on a pointer, slice or map)
+   Parts of the destination that no statement touches stay the destination's.  The pinned
+   generator had OSrc for every pointer-to-scalar node; after fix 7ec5f08 no statement form
+   produces it. *)
+Inductive origin := OFresh | OBuf | ODst | OSrc.
+
+Definition allocs_fields (rec : node -> val -> val -> list origin) : list node -> list val -> list val -> list origin :=
+  fix go (chs : list node) (ls rs : list val) : list origin :=
+    match chs, ls, rs with
+    | ch :: cr, l :: lr, r :: rr => (rec ch l r ++ go cr lr rr)%list
+    | _, _, _ => []
+    end.
+
+Fixpoint cpy_allocs (n : node) (l r : val) {struct n} : list origin :=
+  match n with
+  | Node ty tn tu nm pk pki p chld mk mv sl hb hc =>
+    let inner (l r : val) : list origin :=
+      match ty with
+      | typeStruct =>
+        match l, r with
+        | VStruct lfs, VStruct rfs => allocs_fields cpy_allocs chld lfs rfs
+        | _, _ => []
+        end
+      | typeMap =>
+        match l, r, mk, mv with
+        | VMap lnil _, VMap _ rkvs, Some kn, Some vn =>
+          match rkvs with
+          | [] => []
+          | _ => (if lnil then OFresh else ODst) ::
+                 flat_map (fun kv => (cpy_allocs kn (zero_val kn) (fst kv) ++ cpy_allocs vn (zero_val vn) (snd kv))%list) rkvs
+          end
+        | _, _, _, _ => []
+        end
+      | typeSlice =>
+        if String.eqb tn "[]byte" then
+          match r with VBytes _ _ _ => [OBuf] | _ => [] end
+        else
+          match l, r, sl with
+          | VSlice lnil _ le, VSlice _ res _, Some en =>
+            match res with
+            | [] => []
+            | _ => (if lnil then OFresh else if Nat.leb (List.length res) le then ODst else OFresh) ::
+                   flat_map (fun e => cpy_allocs en (zero_val en) e) res
+            end
+          | _, _, _ => []
+          end
+      | typeBasic => if String.eqb tu "string" then [OBuf] else []
+      end in
+    if p then
+      match r with
+      | VPtr (Some rx) =>
+        (match l with VPtr (Some _) => ODst | _ => OFresh end) ::
+        inner (match l with VPtr (Some lx) => lx | _ => zero_target n end) rx
+      | _ => []
+      end
+    else inner l r
+  end.
+
 (* ---------- countBytes: the capacity Copy gives its buffer ---------- *)
 Definition count_fields (rec : node -> val -> Z) : list node -> list val -> Z :=
   fix go (chs : list node) (fs : list val) : Z :=
